@@ -54,6 +54,15 @@ What is translated (anything else raises Unsupported and the function is reporte
     is the continuation at the jump site - the `goto cleanup' idiom); a backward goto is rejected;
     glibc's assert() in both forms (statement expression / `(void)0').
 
+  * (session 4) an `if' without escape whose branch runs a loop (or calls a translated function with one) joins through the
+    option (`match (if c then .. Some t else .. Some t) with None => None | Some t => ..'); `&path' of a struct member handed
+    to a translated callee is the opaque input `<path>_ptr' while the callee's accesses are re-rooted at <path>; a local
+    `enum { K = 4 };' only defines constants; CURSORS: a byte-pointer local initialised from a pointer PARAMETER p
+    (`uint8_t *cd = (uint8_t *)p;' / `(uint8_t *)p + n') is represented by its byte offset, `*cd' is `p_bytes cd',
+    `cd++' and comparisons of two cursors over the same parameter are integer operations on the offsets (cursors over
+    different parameters must not be compared - not checked); an argument of a logged call that is outside the subset
+    keeps its path unchanged.
+
 Output conventions: all values are Z.  `u32 x' = x mod 2^32 etc. come from coq/C2CoqPrelude.v.
 """
 import json
@@ -143,6 +152,7 @@ class Fn:
         self.written = []         # names of paths stored to (in order of first store)
         self.locals = {}          # decl id -> Var
         self.has_loop = False
+        self.cursor = {}          # local id -> byte-array path of the pointer parameter it walks over
         self.pre = []
         self.loopn = 0
         self.loop_depth = 0
@@ -261,6 +271,13 @@ class Fn:
         if k == "UnaryOperator" and e["opcode"] == "*" and self.is_errno(e["inner"][0]):
             return ("errno", None, e["type"], None)
         if k == "UnaryOperator" and e["opcode"] == "*":
+            t0 = e["inner"][0]
+            while t0.get("kind") in ("ImplicitCastExpr", "ParenExpr"):
+                t0 = t0["inner"][0]
+            if t0.get("kind") == "DeclRefExpr" and t0["referencedDecl"]["id"] in self.cursor:
+                cid = t0["referencedDecl"]["id"]
+                return (self.cursor[cid], {"kind": "__raw", "text": self.locals[cid].name, "type": {"qualType": "unsigned long"}},
+                        e["type"], None)
             base = self.path_of(e["inner"][0])
             if base[1] is not None:
                 raise Unsupported("deref of an array element")
@@ -564,7 +581,16 @@ class Fn:
                     continue
                 a = bind[root]
                 if v.name == root:
-                    actuals.append(self.expr(a))
+                    try:
+                        actuals.append(self.expr(a))
+                    except Unsupported:
+                        # `&path' of a struct-typed object (`&my_src->timerlist') handed to a translated callee: the
+                        # pointer value itself is an opaque input <path>_ptr; what the callee reads and writes through
+                        # it is re-rooted at <path> below, like for any other pointer argument
+                        b = self.path_of(a)
+                        if b[1] is not None or b[3] is not None:
+                            raise
+                        actuals.append(self.add_input(Var(b[0] + "_ptr", "Z")).name)
                     continue
                 base = self.path_of(a)
                 if base[1] is not None:
@@ -613,6 +639,13 @@ class Fn:
                 try:
                     av = self.expr(a_)
                 except Unsupported:
+                    if label in self.spec.get("logged_calls", []):
+                        # an argument outside the subset (e.g. `&c->request') is not recorded; the path still exists
+                        # (and is returned unchanged) because the statement pre-pass counts it among the stored ones
+                        an = "arg%d_%s" % (ai, label)
+                        self.add_input(Var(an, "arr"))
+                        if an not in self.written:
+                            self.written.append(an)
                     continue
                 if label in self.spec.get("logged_calls", []):
                     an = "arg%d_%s" % (ai, label)
@@ -622,8 +655,17 @@ class Fn:
                     logtxt += "let %s := upd %s %s %s in\n" % (an, an, cnt, av)
             self.ncalls += 1
             rv = "c%d_%s" % (self.ncalls, label)
+            hv = self.spec.get("oracle_havoc", {}).get(label, [])
+            for hp in hv:
+                # the call may change this (scalar) path: after the k-th call it holds (hv_<label>_<path> k)
+                ho = self.add_input(Var("hv_%s_%s" % (label, hp), "arr")).name
+                self.add_input(Var(hp, "Z"))
+                if hp not in self.written:
+                    self.written.append(hp)
+                havoc += "let %s := %s %s in\n" % (hp, ho, cnt)
             note = "calls to %s: the k-th result is (%s k) for an arbitrary stream; %s counts them " \
-                   "(assumed without effect on the modelled paths)" % (name or "the function pointer " + label, orc, cnt)
+                   "(assumed without effect on the modelled paths%s)" % (name or "the function pointer " + label, orc, cnt,
+                   (" other than " + ", ".join(hv) + ", which hold arbitrary values hv_%s_<path> k afterwards" % label) if hv else "")
             if note not in self.notes:
                 self.notes.append(note)
             self.pre.append((logtxt + havoc + "let %s := %s %s in\nlet %s := %s + 1 in\n" % (rv, orc, cnt, cnt, cnt), ""))
@@ -698,6 +740,8 @@ class Fn:
                     pass
                 elif name in self.spec.get("oracle_calls", []):
                     acc.append(("cnt_" + cname(name), "Z"))
+                    for hp in self.spec.get("oracle_havoc", {}).get(cname(name), []):
+                        acc.append((hp, "Z"))
                     if cname(name) in self.spec.get("logged_calls", []):
                         for ai in range(len(n["inner"]) - 1):
                             acc.append(("arg%d_%s" % (ai, cname(name)), "arr"))
@@ -705,6 +749,8 @@ class Fn:
                     try:
                         lb = self.path_of(_)[0]
                         acc.append(("cnt_" + lb, "Z"))
+                        for hp in self.spec.get("oracle_havoc", {}).get(lb, []):
+                            acc.append((hp, "Z"))
                         if lb in self.spec.get("logged_calls", []):
                             for ai in range(len(n["inner"]) - 1):
                                 acc.append(("arg%d_%s" % (ai, lb), "arr"))
@@ -749,6 +795,34 @@ class Fn:
         i = self.expr(idx)
         return "let %s := upd %s %s %s in\n%s" % (name, name, i, wrap(ty, val), k())
 
+    BYTE_PTR = ("char *", "unsigned char *", "signed char *", "uint8_t *", "int8_t *")
+
+    def cursor_init(self, ty, e):
+        """`uint8_t *cd = (uint8_t *)p' / `(uint8_t *)p + n' for a pointer PARAMETER p -> (p_bytes, offset text), else None"""
+        if desugar(ty) not in self.BYTE_PTR and not desugar(ty).replace("const ", "") in self.BYTE_PTR:
+            return None
+        x = e
+        while x.get("kind") in ("ImplicitCastExpr", "CStyleCastExpr", "ParenExpr"):
+            x = x["inner"][0]
+        off = None
+        if x.get("kind") == "BinaryOperator" and x.get("opcode") == "+":
+            if desugar(x["type"]) not in self.BYTE_PTR:
+                return None          # the addition must already be in bytes
+            lhs, rhs = x["inner"]
+            if int_type(rhs["type"]) is None or desugar(rhs["type"]).endswith("*"):
+                return None
+            off = rhs
+            x = lhs
+            while x.get("kind") in ("ImplicitCastExpr", "CStyleCastExpr", "ParenExpr"):
+                x = x["inner"][0]
+        if x.get("kind") != "DeclRefExpr" or x["referencedDecl"]["id"] not in self.param_ids:
+            return None
+        if not desugar(x["type"]).endswith("*"):
+            return None
+        name = self.locals[x["referencedDecl"]["id"]].name + "_bytes"
+        self.add_input(Var(name, "arr"))
+        return (name, "0" if off is None else self.expr(off))
+
     def pointer_local_bind(self, did, rhs):
         """a pointer local assigned once: -> 'alias' (rhs is an access path), 'single' (some other value) or None"""
         if self.ptr_assigns.get(did, 0) != 1 or did in self.addr_taken or self.loop_depth:
@@ -790,6 +864,9 @@ class Fn:
                 if i == len(decls):
                     return k()
                 d = decls[i]
+                if d["kind"] == "EnumDecl":      # `enum { P_INVERSE = 4 };' inside a function: constants only
+                    self.tu.collect_enums(d)
+                    return go(i + 1)
                 if d["kind"] != "VarDecl":
                     raise Unsupported("declaration of %s" % d["kind"])
                 if int_type(d["type"]) is None:
@@ -808,6 +885,17 @@ class Fn:
                     v = Var(v.name + "_l", "Z")
                 init = [c for c in d.get("inner", []) if "kind" in c]
                 if init and desugar(d["type"]).endswith("*"):
+                    cur = self.cursor_init(d["type"], init[0])
+                    if cur is not None:
+                        # CURSOR: a byte pointer local that starts at (a byte offset from) a pointer parameter is
+                        # represented by its offset; `*cd' reads the parameter's byte path at that offset
+                        self.cursor[d["id"]] = cur[0]
+                        self.locals[d["id"]] = v
+                        note = "the local pointer %s walks over the bytes %s points to: it is represented by its byte offset, `*%s' is (%s %s)" \
+                               % (v.name, cur[0][:-6], v.name, cur[0], v.name)
+                        if note not in self.notes:
+                            self.notes.append(note)
+                        return "let %s := %s in\n%s" % (v.name, cur[1], go(i + 1))
                     if self.pointer_local_bind(d["id"], init[0]) == "alias":
                         self.locals[d["id"]] = v
                         return go(i + 1)
@@ -830,6 +918,20 @@ class Fn:
                 desugar(s["inner"][0]["type"]).endswith("*") and \
                 s["inner"][0]["referencedDecl"]["id"] not in self.param_ids:
             if self.pointer_local_bind(s["inner"][0]["referencedDecl"]["id"], s["inner"][1]) == "alias":
+                return k()
+        if kind == "BinaryOperator" and s["opcode"] == "=" and s["inner"][0].get("kind") == "DeclRefExpr" and \
+                s["inner"][0]["referencedDecl"].get("name") in self.spec.get("object_locals", []) and \
+                desugar(s["inner"][0]["type"]).endswith("*") and \
+                not any(n_.get("kind") == "CallExpr" for n_ in walk(s["inner"][1])):
+            # `job = qb_list_first_entry(...)' (a GNU statement expression): an object_local pointer only stands for
+            # the object it points to (its fields are the paths <name>_<field>); its numeric value is never needed
+            try:
+                self.ev(lambda: self.expr(s["inner"][1]))
+            except Unsupported:
+                note = "the value assigned to the object_local pointer %s is outside the subset and is not represented" \
+                       % s["inner"][0]["referencedDecl"].get("name")
+                if note not in self.notes:
+                    self.notes.append(note)
                 return k()
         if kind == "BinaryOperator" and s["opcode"] == "=":
             p = self.path_of(s["inner"][0])
@@ -892,8 +994,17 @@ class Fn:
                     return self.wrap_pre(pre, k())
                 tup = names[0] if len(names) == 1 else "(" + ", ".join(names) + ")"
                 pat = names[0] if len(names) == 1 else "'(" + ", ".join(names) + ")"
-                a = self.stmt(th, lambda: tup)
-                b = self.stmt(el, lambda: tup) if el is not None else tup
+                self.joinn = getattr(self, "joinn", 0) + 1
+                mark = "@JOIN%d@" % self.joinn
+                a = self.stmt(th, lambda: mark)
+                b = self.stmt(el, lambda: mark) if el is not None else mark
+                if "| None => None" in a or "with None => None" in a or "| None => None" in b or "with None => None" in b:
+                    # a branch runs a loop (or calls a function with one): its value is an option (None = out of
+                    # fuel), so the join is a match on the option, not a plain let
+                    a, b = a.replace(mark, "Some " + tup), b.replace(mark, "Some " + tup)
+                    return self.wrap_pre(pre, "match (if %s then\n%s else\n%s) with\n| None => None\n| Some %s =>\n%s\nend"
+                                         % (cnd, a, b, tup, k()))
+                a, b = a.replace(mark, tup), b.replace(mark, tup)
                 return self.wrap_pre(pre, "let %s := (if %s then\n%s else\n%s) in\n%s" % (pat, cnd, a, b, k()))
             a = self.stmt(th, k)
             b = self.stmt(el, k) if el is not None else k()
@@ -1217,8 +1328,45 @@ def indent(txt, n=2):
     return "\n".join(" " * n + l for l in txt.split("\n"))
 
 
+def _gotos_outside_loops(n, lid, acc, in_loop=False):
+    if n.get("kind") == "GotoStmt" and n.get("targetLabelDeclId") == lid:
+        acc.append((n, in_loop))
+    inner_loop = in_loop or n.get("kind") in ("WhileStmt", "ForStmt", "DoStmt")
+    for c in n.get("inner", []):
+        if isinstance(c, dict) and c:
+            _gotos_outside_loops(c, lid, acc, inner_loop)
+
+
+def rewrite_backward_goto(decl):
+    """`L: S1; ...; Sn' at the top level of a function body, with `goto L' inside S1..Sn (not inside a loop), is
+    `while (1) { S1; ...; Sn; break; }' with every such goto replaced by `continue' (same control flow)."""
+    body = next(c for c in decl.get("inner", []) if c.get("kind") == "CompoundStmt")
+    lst = body.get("inner", [])
+    for j, s_ in enumerate(lst):
+        if s_.get("kind") != "LabelStmt":
+            continue
+        acc = []
+        for t in lst[j:]:
+            _gotos_outside_loops(t, s_.get("declId"), acc)
+        if not acc or any(il for _, il in acc):
+            continue
+        for g, _ in acc:
+            g.clear()
+            g["kind"] = "ContinueStmt"
+        one = {"kind": "IntegerLiteral", "value": "1", "type": {"qualType": "int"}}
+        newbody = {"kind": "CompoundStmt", "inner": [s_["inner"][0]] + lst[j + 1:] + [{"kind": "BreakStmt"}]}
+        body["inner"] = lst[:j] + [{"kind": "WhileStmt", "inner": [one, newbody]}]
+        return True
+    return False
+
+
 def translate_function(tu, name, spec, done):
-    f = Fn(tu, tu.function(name), spec, done)
+    decl = tu.function(name)
+    rewrote = rewrite_backward_goto(decl)
+    f = Fn(tu, decl, spec, done)
+    if rewrote:
+        f.notes.append("the backward goto to a label of the function's statement list is a `while (1) { ...; break; }' "
+                       "whose `continue' is the goto")
     loops = any(d.get("kind") in ("WhileStmt", "ForStmt") or
                 (d.get("kind") == "DoStmt" and d["inner"][1].get("value") != "0") for d in walk(f.body))
     for d in walk(f.body):
